@@ -46,6 +46,9 @@ CHECKS = {
  "C19": ("E1-shape", "exhaustive enumeration of the backend configuration space, differential comparison of real compiler outputs",
          "29 base module sets (27 feature modules of G, a module of CHOICEs with unique/duplicate/recursive/anonymous payload types and const/lazy values, a 3-module import set) x all 191 non-default RasnConfig combinations (2^4 flags x custom_imports {0,1,3} x type_annotations {default, extra derives, non-derive attributes, derives listed twice}); the projection under each configuration minus the documented delta of every enabled option must equal the default-configuration projection item by item.",
          "syn projection trusted; opaque_open_types=false is only compared on bases without information-object machinery (where it must change nothing).", "§4 C19"),
+ "C20": ("E3-history", "complete enumeration of the outcome x output-mode x destination-state x backend x source-kind matrix (and two-step histories), each operation executed on the real library / CLI in a child process inside a sandbox directory",
+         "912 cases (both tiers): input outcome {Ok, Ok+warnings, lexer Err, unreadable path} x mode {file, existing directory, Stdout, NoOutput, deprecated set_output_path, CLI default} x destination {absent, existing content, read-only file/dir, missing parent, parent is a file, /dev/full} x backend x source kind {literal, path, iterator, mix, CLI -m, CLI -d recursive}, plus two-step histories on one destination; directory tree snapshotted before/after, stdout captured; delivered bytes must equal compile_to_string(), nothing written on failure, unwritable => Err(Generator(IO)) without panic, CLI exit status 0 <=> Ok.",
+         "chmod-based read-only rows are reported as not realisable when the check runs as root (permission bits not enforced); unwritable destinations are then realised through missing parent / parent-is-file / /dev/full. The asn1! macro clause is not covered by this check (see DESIGN §5).", "§4 C20"),
 }
 PENDING = {}
 def main():
